@@ -14,8 +14,11 @@ from harness import alpha, common, gen
 
 
 class ImplWorld:
+    _n = [0]
+
     def __init__(self, case):
         self.case = case
+        self._seen_paths = set()
         self.dir = common.fresh_path(suffix="_d")
         os.makedirs(self.dir, exist_ok=True)
         self.umap = alpha.UuidMap()
@@ -31,6 +34,12 @@ class ImplWorld:
     def path(self, p):
         # some histories pass every path as a pathlib.Path: the package accepts both, and must treat them alike
         q = os.path.join(self.dir, p + ".h5")
+        if p not in self._seen_paths:
+            # the first time a history touches a path, the package has already seen that path holding something else
+            self._seen_paths.add(p)
+            if os.environ.get("VERIF_PATH_HISTORY", "1") != "0" and not os.path.exists(q):
+                common._give_history(q, (len(self.dir) + len(p) + ImplWorld._n[0]) % 3)
+                ImplWorld._n[0] += 1
         if self.case.get("pathlib"):
             import pathlib
             return pathlib.Path(q)
